@@ -255,6 +255,14 @@ type valueGen struct {
 	r        *hx.Rand
 	junk     int  // per-node chance (in 100) of an arbitrary value instead of a valid one
 	explicit bool // write every field of every object (null for the ones a budget cuts off)
+	nulls    int  // per-node chance (in 100) of null at a nullable position; 0 = the usual 1 in 7
+}
+
+func (g *valueGen) drawNull() bool {
+	if g.nulls > 0 {
+		return g.r.Intn(100) < g.nulls
+	}
+	return g.r.Chance(1, 7)
 }
 
 func customLeaves(name string) []hx.Sexp {
@@ -274,7 +282,7 @@ func (g *valueGen) valid(t *Ty, asItem, nonNull bool, budget int) hx.Sexp {
 	if t.K == "nn" {
 		return g.valid(t.Elem, asItem, true, budget)
 	}
-	if !nonNull && (g.r.Chance(1, 7) || (budget <= 0 && t.K == "input")) {
+	if !nonNull && (g.drawNull() || (budget <= 0 && t.K == "input")) {
 		return cvNull
 	}
 	switch t.K {
